@@ -45,15 +45,27 @@ Theorem C11_container_full_refuted : ~ container_full_statement.
 Proof. exact container_full_refuted. Qed.
 Print Assumptions C11_container_full_refuted.
 
-(* the four witnesses: list default of length n dealt element-wise; `--xs 7` delivers the scalar 7; `--t 3 4` (n=2)
-   raises TypeError; `--t (3,4,5)` accepted for Tuple[int,int] *)
-Theorem C11_container_witnesses :
-  ~ meets (spec_expect (KList EInt) [Some (VList [VInt 1; VInt 2]); Some (VList [VInt 1; VInt 2])] None) w_dealt
-  /\ ~ meets (spec_expect (KList EInt) [Some (VList []); Some (VList [])] (Some [t7])) w_bare
-  /\ ~ meets (spec_expect (KTuple EInt None) [Some (VTuple []); Some (VTuple [])] (Some [t3; t4])) w_type
-  /\ ~ meets (spec_expect (KTuple EInt (Some 2)) [Some (VTuple [VInt 1; VInt 2]); Some (VTuple [VInt 1; VInt 2])] (Some [t345])) w_arity.
-Proof. exact container_witnesses. Qed.
-Print Assumptions C11_container_witnesses.
+(* the four witnesses, one theorem each (so that a repair invalidates exactly its own):
+   - defect #4: a list default whose length equals n is dealt element-wise ([1,2], n=2: d0 gets 1, d1 gets 2) *)
+Theorem C11_refuted_default_dealt :
+  ~ meets (spec_expect (KList EInt) [Some (VList [VInt 1; VInt 2]); Some (VList [VInt 1; VInt 2])] None) w_dealt.
+Proof. exact refuted_default_dealt. Qed.
+Print Assumptions C11_refuted_default_dealt.
+(* - defect #5: `--xs 7` delivers the scalar 7 to a List[int] field *)
+Theorem C11_refuted_bare_scalar :
+  ~ meets (spec_expect (KList EInt) [Some (VList []); Some (VList [])] (Some [t7])) w_bare.
+Proof. exact refuted_bare_scalar. Qed.
+Print Assumptions C11_refuted_bare_scalar.
+(* - defect #5: `--t 3 4` with n = 2 raises TypeError *)
+Theorem C11_refuted_tuple_typeerror :
+  ~ meets (spec_expect (KTuple EInt None) [Some (VTuple []); Some (VTuple [])] (Some [t3; t4])) w_type.
+Proof. exact refuted_tuple_typeerror. Qed.
+Print Assumptions C11_refuted_tuple_typeerror.
+(* - defect #5: `--t (3,4,5)` is accepted for Tuple[int,int] *)
+Theorem C11_refuted_tuple_arity :
+  ~ meets (spec_expect (KTuple EInt (Some 2)) [Some (VTuple [VInt 1; VInt 2]); Some (VTuple [VInt 1; VInt 2])] (Some [t345])) w_arity.
+Proof. exact refuted_tuple_arity. Qed.
+Print Assumptions C11_refuted_tuple_arity.
 
 (* container kinds, what does hold: bracketed literals of the item type (right arity for fixed tuples), and a default that
    the packaging treats as one value (a list default of length n at top level is excluded: `default_safe`) *)
